@@ -18,7 +18,7 @@ RULE = ("histories: an initial generated ACL (<= 8 lines, plain addresses and gr
         "operations with generated arguments (platform, port_nr, protocol_nr, resequence, group, ungroup, "
         "resequence+shuffle+sort, reverse, insert, append, pop, remove, copy, export/import, re-parse, "
         "delete_shadow(skip), ungroup_ports, indent); thorough additionally enumerates ALL sequences of length "
-        "<= 3 over a fixed alphabet of 20 concrete operations from 6 seed ACLs. The model is history-free: a flat "
+        "<= 3 over a fixed alphabet of 22 concrete operations from 6 seed ACLs. The model is history-free: a flat "
         "list of records transformed by the documented effect of each operation. Invariants after EVERY step: "
         "the text re-parses to itself, the independent strict reader sees exactly the model's ordered rule list "
         "(by meaning) / remarks / numbers / header, data() rebuilds the same text, attached group members equal "
@@ -29,7 +29,7 @@ ASSUMPTIONS = ["model = documentation of each operation (DESIGN.md 3, C17); conv
                "(exact inclusion for plain addresses, member-wise prefix inclusion for group addresses)",
                "list operations are generated only on ungrouped ACLs; a re-parse forgets attached group members"]
 
-STRUCTURAL = {"platform", "group", "delete_shadow", "ungroup_ports", "reparse", "copy", "export_import"}
+STRUCTURAL = {"platform", "group", "delete_shadow", "ungroup_ports", "reparse", "copy", "export_import", "fill_in_place"}
 SKIPS = [None, ["addrgroup"], ["nc_wildcard"]]
 
 
@@ -86,6 +86,10 @@ class State:
         self.group_by = acl_case.get("group_by") or ""
         self.indent = acl_case.get("indent") or "  "
         self.name = acl_case["name"]
+        self.version = acl_case.get("version", "0")
+        self.max_ncwb = acl_case.get("max_ncwb")
+        self.wide = any(it["t"] == "ace" and any(len(R.nc_bits(it["rec"][sd]["w"])) > 8 for sd in ("src", "dst")
+                                                 if it["rec"][sd]["k"] == "wild") for it in acl_case["items"])
         self.prefix = acl_case.get("prefix") or "= "
         self.flat = [dict(it, rec=dict(it["rec"])) if it["t"] == "ace" else dict(it) for it in acl_case["items"]]
         self.acl = A.build_acl(dict(acl_case, indent=self.indent))
@@ -98,6 +102,10 @@ class State:
             kw["protocol_nr"] = True
         if self.group_by:
             kw["group_by"] = self.group_by
+        if self.version != "0":
+            kw["version"] = self.version
+        if self.max_ncwb is not None:
+            kw["max_ncwb"] = self.max_ncwb
         return kw
 
     def has_groups(self):
@@ -120,9 +128,10 @@ def lib_item(item, st_: State):
     from cisco_acl import Ace, Remark
 
     if item["t"] == "rem":
-        return Remark(G.item_line(item, st_.platform), platform=st_.platform)
-    ace = Ace(G.render_ace(item["rec"], st_.platform, noise=False), platform=st_.platform, port_nr=st_.port_nr,
-              protocol_nr=st_.protocol_nr)
+        return Remark(G.item_line(item, st_.platform), platform=st_.platform, version=st_.version)
+    # the new entry is created for the ACL's own platform and version (names are spelled from that table)
+    ace = Ace(G.render_ace(item["rec"], st_.platform, st_.version, noise=False), platform=st_.platform,
+              version=st_.version, port_nr=st_.port_nr, protocol_nr=st_.protocol_nr)
     A.attach_members(ace, item["rec"])
     return ace
 
@@ -133,10 +142,11 @@ def apply(op, s: State, v: Verdict):
     acl = s.acl
     n = len(s.flat)
     if name == "platform":
-        p = op[1]
-        if p not in ("ios", "nxos"):
+        spelled = op[1]
+        p = next((k for k, al in G.PLATFORM_ALIASES.items() if spelled in al), None)
+        if p is None:
             raise Invalid()
-        acl.platform = p
+        acl.platform = spelled  # any documented spelling of the platform name
         s.platform = p
         if p == "nxos":
             s.flat = [dict(it, rec=r) if it["t"] == "ace" else it for it in s.flat
@@ -194,6 +204,14 @@ def apply(op, s: State, v: Verdict):
             return None
         acl.reverse()
         s.flat.reverse()
+    elif name == "fill_in_place":
+        # build the ACL the way cisco_acl.aces() does: empty object with the same settings, items appended in place
+        from cisco_acl import Acl
+
+        fresh = Acl(name=s.name, **s.kwargs())
+        for obj in A.flat_items(acl.items):
+            fresh.items.append(obj.copy())
+        s.acl = fresh
     elif name in ("insert", "append"):
         if s.group_by or any(type(o).__name__ == "AceGroup" for o in acl.items):
             return None
@@ -234,6 +252,8 @@ def apply(op, s: State, v: Verdict):
             if it["t"] == "ace":
                 it["rec"] = G.strip_members(it["rec"])
     elif name == "delete_shadow":
+        if s.wide:
+            return None  # prefix expansion of a >8-bit non-contiguous wildcard: bounded out (DESIGN.md section 5)
         skip = SKIPS[op[1] % len(SKIPS)]
         if skip == ["nc_wildcard"] and s.has_groups():
             skip = None
@@ -268,7 +288,7 @@ def invariants(s: State, v: Verdict, trace, where):
         v.fail(f"{where}:platform-attribute", detail)
         return
     try:
-        hdr, got = G.read_flat(text, s.platform, strict=True)
+        hdr, got = G.read_flat(text, s.platform, s.version, strict=True)
     except R.RefError as ex:
         v.fail(f"{where}:text-not-valid-platform-syntax", dict(detail, why=str(ex)[:200]))
         return
@@ -378,9 +398,9 @@ def item_st(platform):
 def op_st(draw, platform):
     name = draw(st.sampled_from(["platform", "platform", "port_nr", "protocol_nr", "resequence", "group", "ungroup",
                                  "shuffle_sort", "reverse", "insert", "append", "pop", "remove", "copy", "export_import",
-                                 "reparse", "delete_shadow", "delete_shadow", "ungroup_ports", "indent"]))
+                                 "reparse", "delete_shadow", "delete_shadow", "ungroup_ports", "indent", "fill_in_place"]))
     if name == "platform":
-        return [name, draw(st.sampled_from(["ios", "nxos"]))]
+        return [name, draw(st.sampled_from(["ios", "nxos", "ios", "nxos", "cisco_ios", "cisco_nxos", "cnx"]))]
     if name in ("port_nr", "protocol_nr"):
         return [name, draw(st.booleans())]
     if name == "resequence":
@@ -404,6 +424,12 @@ def history_st(draw, tier):
     acl = draw(G.acl_st(min_items=1, max_items=8, kmax=2, groups=True, members=True, seqs=True, neq_multi=False,
                         empty_sets=False, established=False, native=True, dup_headings=False))
     acl["port_nr"] = draw(st.booleans())
+    acl["version"] = draw(st.sampled_from(["0", "0", "0", "15.2(02)SY", "16.09.06"]))
+    if draw(st.sampled_from(range(8))) == 0:
+        aces = [it for it in acl["items"] if it["t"] == "ace"]
+        if aces:
+            acl["max_ncwb"] = 30
+            draw(st.sampled_from(aces))["rec"]["src"] = {"k": "wild", "b": 0x0A000001, "w": 0x03FFFE00 | draw(st.integers(0, 255)) << 1 & ~1}
     ops = draw(st.lists(op_st(acl["platform"]), min_size=4, max_size=25 if tier == "quick" else 40))
     return {"acl": acl, "ops": ops}
 
@@ -449,6 +475,7 @@ ALPHABET = [
     ["resequence", 10, 10], ["resequence", 0, 1], ["group"], ["ungroup"], ["shuffle_sort", [1, 0, 2], 5, 5], ["reverse"],
     ["insert", 1, {"t": "ace", "rec": _rec(proto=17, dp=_eq(53))}], ["append", {"t": "rem", "text": "tail", "seq": 0}],
     ["pop", 1], ["copy"], ["export_import"], ["reparse"], ["delete_shadow", 0], ["ungroup_ports"], ["indent", " "],
+    ["platform", "cnx"], ["fill_in_place"],
 ]
 
 
@@ -481,11 +508,11 @@ SUBS = [
 def evidence_extra(total):
     return {"exhaustive": False,
             "exhaustive_subdomains": "all-short-sequences: every sequence of length <= 2 (quick) / <= 3 (thorough) over the "
-                                     "20-operation alphabet from each of the 6 seed ACLs; random histories beyond"}
+                                     "22-operation alphabet from each of the 6 seed ACLs; random histories beyond"}
 
 
 MANIFEST = {
     "technique": "model-based (stateful) property testing: generated op-list histories interpreted against the library and a history-free reference model with invariants after every step; bounded-exhaustive enumeration of all short sequences over a fixed alphabet",
-    "text": "exploration: after every step of hundreds (quick) / 12 000 (thorough) generated histories of up to 25 / 40 operations, and of every operation sequence of length <= 2 / <= 3 over 20 concrete operations from 6 seed ACLs, the rendered text re-parsed to itself and the independent strict reader saw exactly the rule list predicted by the model",
+    "text": "exploration: after every step of hundreds (quick) / 12 000 (thorough) generated histories of up to 25 / 40 operations, and of every operation sequence of length <= 2 / <= 3 over 22 concrete operations from 6 seed ACLs, the rendered text re-parsed to itself and the independent strict reader saw exactly the rule list predicted by the model",
     "note": "trusted: lib/refsem.py and the per-operation model in checks/c17.py (documentation-derived); ACLs <= 8 lines, k<=2, list operations only on ungrouped ACLs; the model covers 18 operations, not every public attribute",
 }
